@@ -14,6 +14,12 @@
 //                                 OrangeParams built from X and from X2
 //  {"mode":"dec","j":<tagged>}    x2 = dump(from_json(untag(j))) or "dec_err"
 //  {"mode":"consts"}              constants the model hard-codes
+//  {"mode":"update","j":<tagged>} the orange-update pipeline (the tool's own
+//                                 run(), compiled from app/orange-update.cc):
+//     t1 = run(dump_text(j)) or "err1";  j1 = tag(parse(t1))
+//     t2 = run(t1) or "err2";            fixed = (t1 == t2); j2 if different
+//     x1 = dump(from_json(parse(text(j)))), x2 = dump(from_json(parse(t1)))
+//  {"mode":"updfile","path":...}  same, starting from the text of a file
 //
 // The field-wise description <D> is independent of to_json/from_json: it is
 // written and read only by this file (floats are 16-hex-digit bit patterns).
@@ -42,6 +48,17 @@
 #include "orange/surf/SurfaceTypeTraits.hh"
 #include "orange/surf/VariantSurface.hh"
 #include "orange/transform/VariantTransform.hh"
+
+#include "corecel/Assert.hh"
+#include "corecel/io/Logger.hh"
+#include "corecel/sys/ScopedMpiInit.hh"
+
+// The tool itself: app/orange-update.cc of the tree under test, with its
+// main() renamed; celeritas::app::run (anonymous namespace) is then callable
+// from this translation unit.
+#define main orange_update_main
+#include "../app/orange-update.cc"
+#undef main
 
 using namespace celeritas;
 using json = nlohmann::json;
@@ -492,6 +509,56 @@ void round_trip(OrangeInput const& X, json const& c, json& out)
     }
 }
 //---------------------------------------------------------------------------//
+// two passes of the real orange-update run()
+void update_twice(std::string const& text0, json& out)
+{
+    try
+    {
+        OrangeInput X1;
+        json::parse(text0).get_to(X1);
+        out["x1"] = d_input(X1);
+    }
+    catch (std::exception const& e)
+    {
+        out["x1_err"] = std::string(e.what()).substr(0, 300);
+    }
+    std::string t1, t2;
+    try
+    {
+        std::istringstream is(text0);
+        t1 = celeritas::app::run(&is);
+    }
+    catch (std::exception const& e)
+    {
+        out["err1"] = std::string(e.what()).substr(0, 300);
+        return;
+    }
+    out["j1"] = tag(json::parse(t1));
+    try
+    {
+        OrangeInput X2;
+        json::parse(t1).get_to(X2);
+        out["x2"] = d_input(X2);
+    }
+    catch (std::exception const& e)
+    {
+        out["x2_err"] = std::string(e.what()).substr(0, 300);
+    }
+    try
+    {
+        std::istringstream is(t1);
+        t2 = celeritas::app::run(&is);
+    }
+    catch (std::exception const& e)
+    {
+        out["err2"] = std::string(e.what()).substr(0, 300);
+        return;
+    }
+    out["fixed"] = (t1 == t2);
+    if (t1 != t2)
+        out["j2"] = tag(json::parse(t2));
+}
+//---------------------------------------------------------------------------//
 }  // namespace
 
 int main()
@@ -534,6 +601,17 @@ int main()
                 {
                     out["dec_err"] = std::string(e.what()).substr(0, 400);
                 }
+            }
+            else if (mode == "update")
+            {
+                update_twice(untag(c["j"]).dump(), out);
+            }
+            else if (mode == "updfile")
+            {
+                std::ifstream f(c["path"].get<std::string>());
+                std::stringstream ss;
+                ss << f.rdbuf();
+                update_twice(ss.str(), out);
             }
             else if (mode == "consts")
             {
